@@ -38,6 +38,7 @@ ASSUMPTIONS = ["pandapower.auxiliary.get_indices maps every value through the lo
 TECHNIQUE = "schema derivation from create functions and component classes; guarded-access check over consumers of the reference map"
 EXPLANATION += (' ' + '(R17.6) element_junction_tuples, the work list of the dropping and reindexing tools, is put into normal form with all include_* flags False (with and without a net): no (table, column) pair may be added, so a column that is listed whenever its table exists (and makes a tool touch elements of an excluded kind) is reported.')
 EXPLANATION += (' ' + "(R17.7) a parameter of a tool that is handed on unchanged to another package function is bound to the callee's parameter of the same name (up to an include_ / respect_ prefix); a binding to a differently named parameter although the callee has one of that name -- two flags crossed in a positional call -- is reported.")
+EXPLANATION += (' ' + "(R17.8) wherever a function of toolbox.py replaces the index of a table (T.index = v, T.set_index(v), T.set_axis(v)), v is computed from T's own old index.")
 
 
 def _validated_table(ix, f, c, p):
